@@ -1,11 +1,11 @@
-\* quick: 2 calls x 2 connections, 1 drop
+\* 2 calls x 1 connection, one expiry of the 10 s silence timer, 1 noise packet: everything but NoStuck
 CONSTANTS
   Calls = {c1, c2}
-  NConns = 2
+  NConns = 1
   Unknown = unk
-  MaxDrops = 1
-  MaxNoise = 0
-  MaxSilence = 0
+  MaxDrops = 0
+  MaxNoise = 1
+  MaxSilence = 1
   StrictRst = TRUE
   MaxBacklog = 3
 SPECIFICATION Spec
